@@ -69,6 +69,24 @@ pub enum BitsK {
     Easier(u8),
     /// the network's maximum target
     ChainMax,
+    /// the tip's target in the other compact encoding (mantissa shifted by a byte), where one exists
+    Alias,
+}
+
+/// the second compact encoding of the same target, if there is one
+pub fn alias_bits(bits: CompactTarget) -> Option<CompactTarget> {
+    let c = bits.to_consensus();
+    let (exp, mant) = (c >> 24, c & 0x007f_ffff);
+    if c & 0x0080_0000 != 0 || mant == 0 {
+        return None;
+    }
+    if mant & 0xff == 0 && exp < 0x22 {
+        return Some(CompactTarget::from_consensus(((exp + 1) << 24) | (mant >> 8)));
+    }
+    if mant <= 0x7fff && exp > 3 {
+        return Some(CompactTarget::from_consensus(((exp - 1) << 24) | (mant << 8)));
+    }
+    None
 }
 
 #[derive(Clone, Debug, PartialEq, Eq, Hash, Serialize, Deserialize)]
@@ -101,6 +119,10 @@ pub struct C13Cfg {
     /// while previous headers *are* remembered the supplied ones must still equal them
     #[serde(default)]
     pub deep_reorgs: bool,
+    /// checkpoint configurations only: the tip's target is 2^252, whose compact form 0x20100000 has a
+    /// second encoding (0x21001000; 2^252 rather than 2^254 because the library's factor-four bound wraps around above 2^254, which no real network reaches); letter `AddBits(Alias)` claims the same target in the other form
+    #[serde(default)]
+    pub round_tip: bool,
 }
 
 /// shift a target whose significant bits sit in the upper half (all targets used here do)
@@ -206,7 +228,7 @@ impl Model for C13Model {
     }
 
     fn name(&self) -> String {
-        format!("chain13(oracles={},L={}{}{}{})", self.cfg.oracles, self.cfg.max_chain, if self.cfg.streamed { ",streamed" } else { "" }, if self.cfg.restart { ",restart" } else { "" }, if self.cfg.prefill > 0 { format!(",prefill={}", self.cfg.prefill) } else { String::new() }) + &match self.cfg.retarget { Some((r, sh)) => format!(",checkpoint {} before a retarget, tip target max/2^{}", r, sh), None => String::new() } + if self.cfg.deep_reorgs { ",deep reorgs allowed" } else { "" }
+        format!("chain13(oracles={},L={}{}{}{})", self.cfg.oracles, self.cfg.max_chain, if self.cfg.streamed { ",streamed" } else { "" }, if self.cfg.restart { ",restart" } else { "" }, if self.cfg.prefill > 0 { format!(",prefill={}", self.cfg.prefill) } else { String::new() }) + &match self.cfg.retarget { Some((r, sh)) => format!(",checkpoint {} before a retarget, tip target max/2^{}", r, sh), None => String::new() } + if self.cfg.deep_reorgs { ",deep reorgs allowed" } else { "" } + if self.cfg.round_tip { ",tip target 2^252" } else { "" }
     }
 
     fn init(&self) -> C13State {
@@ -217,7 +239,7 @@ impl Model for C13Model {
             // start from a checkpoint: height, tip header (mined for its hard target) and a filter
             // header, nothing remembered below it
             let maxt = lightning_signer::chain::tracker::max_target(lightning_signer::bitcoin::Network::Regtest);
-            let bits = shift_target(maxt, false, sh as u8).to_compact_lossy();
+            let bits = if self.cfg.round_tip { CompactTarget::from_consensus(0x2010_0000) } else { shift_target(maxt, false, sh as u8).to_compact_lossy() };
             let header = mine(
                 lightning_signer::bitcoin::BlockHash::from_byte_array([0x42; 32]),
                 lightning_signer::bitcoin::TxMerkleNode::from_byte_array([0x24; 32]),
@@ -263,9 +285,15 @@ impl Model for C13Model {
                 v.push(Op::Add(Body::Empty, Delivery::Compact));
                 for k in [1u8, 2, 3] {
                     v.push(Op::AddBits(BitsK::Harder(k)));
-                    v.push(Op::AddBits(BitsK::Easier(k)));
+                    // (a shift out of the 256 bits leaves no target to mine for)
+                    if shift_target(s.chain.tip().0.target(), true, k) != Target::ZERO {
+                        v.push(Op::AddBits(BitsK::Easier(k)));
+                    }
                 }
                 v.push(Op::AddBits(BitsK::ChainMax));
+                if alias_bits(s.chain.tip().0.bits).is_some() {
+                    v.push(Op::AddBits(BitsK::Alias));
+                }
             }
             v.push(Op::Remove(Delivery::Compact));
             return v;
@@ -392,6 +420,7 @@ impl Model for C13Model {
                 let (t, nominal): (Target, i64) = match k {
                     BitsK::Harder(k) => (shift_target(prev_t, false, *k), -(*k as i64)),
                     BitsK::Easier(k) => (shift_target(prev_t, true, *k), *k as i64),
+                    BitsK::Alias => (prev_t, 0),
                     BitsK::ChainMax => (maxt, {
                         // the tip may itself have moved away from the checkpoint's target
                         let mut d = 0i64;
@@ -404,7 +433,8 @@ impl Model for C13Model {
                         d
                     }),
                 };
-                let bits = t.to_compact_lossy();
+                let bits = if *k == BitsK::Alias { alias_bits(tip.0.bits).expect("alias letter only where an alias exists") } else { t.to_compact_lossy() };
+                assert!(bits.to_consensus() != 0, "AddBits({:?}) on tip bits {:#x}: no target", k, tip.0.bits.to_consensus());
                 let mut block = self.block_for(s, Body::Empty, 5);
                 let txs = block.txdata.clone();
                 block.header = mine(tip.0.block_hash(), merkle_root(&txs), bits, 0);
@@ -749,29 +779,32 @@ pub fn strip_saw_block(mut v: serde_json::Value) -> serde_json::Value {
 pub fn configs(tier: Tier) -> Vec<C13Cfg> {
     match tier {
         Tier::Quick => vec![
-            C13Cfg { oracles: 3, max_chain: 3, streamed: false, restart: false, prefill: 0, retarget: None, deep_reorgs: false },
-            C13Cfg { oracles: 1, max_chain: 2, streamed: true, restart: true, prefill: 0, retarget: None, deep_reorgs: false },
-            C13Cfg { oracles: 1, max_chain: 1, streamed: false, restart: false, prefill: 101, retarget: None, deep_reorgs: false },
-            C13Cfg { oracles: 1, max_chain: 2, streamed: false, restart: false, prefill: 0, retarget: Some((1, 6)), deep_reorgs: false },
-            C13Cfg { oracles: 1, max_chain: 1, streamed: false, restart: false, prefill: 0, retarget: Some((0, 1)), deep_reorgs: false },
-            C13Cfg { oracles: 1, max_chain: 2, streamed: false, restart: false, prefill: 0, retarget: None, deep_reorgs: true },
+            C13Cfg { oracles: 3, max_chain: 3, streamed: false, restart: false, prefill: 0, retarget: None, deep_reorgs: false, round_tip: false },
+            C13Cfg { oracles: 1, max_chain: 2, streamed: true, restart: true, prefill: 0, retarget: None, deep_reorgs: false, round_tip: false },
+            C13Cfg { oracles: 1, max_chain: 1, streamed: false, restart: false, prefill: 101, retarget: None, deep_reorgs: false, round_tip: false },
+            C13Cfg { oracles: 1, max_chain: 2, streamed: false, restart: false, prefill: 0, retarget: Some((1, 6)), deep_reorgs: false, round_tip: false },
+            C13Cfg { oracles: 1, max_chain: 1, streamed: false, restart: false, prefill: 0, retarget: Some((0, 1)), deep_reorgs: false, round_tip: false },
+            C13Cfg { oracles: 1, max_chain: 2, streamed: false, restart: false, prefill: 0, retarget: None, deep_reorgs: true, round_tip: false },
+            C13Cfg { oracles: 1, max_chain: 2, streamed: false, restart: false, prefill: 0, retarget: Some((1, 1)), deep_reorgs: false, round_tip: true },
         ],
         Tier::Thorough => vec![
-            C13Cfg { oracles: 0, max_chain: 3, streamed: true, restart: false, prefill: 0, retarget: None, deep_reorgs: false },
-            C13Cfg { oracles: 1, max_chain: 4, streamed: true, restart: true, prefill: 0, retarget: None, deep_reorgs: false },
-            C13Cfg { oracles: 2, max_chain: 3, streamed: false, restart: false, prefill: 0, retarget: None, deep_reorgs: false },
-            C13Cfg { oracles: 3, max_chain: 4, streamed: true, restart: true, prefill: 0, retarget: None, deep_reorgs: false },
-            C13Cfg { oracles: 4, max_chain: 3, streamed: false, restart: false, prefill: 0, retarget: None, deep_reorgs: false },
-            C13Cfg { oracles: 2, max_chain: 2, streamed: true, restart: true, prefill: 101, retarget: None, deep_reorgs: false },
-            C13Cfg { oracles: 1, max_chain: 3, streamed: false, restart: true, prefill: 0, retarget: Some((0, 6)), deep_reorgs: false },
-            C13Cfg { oracles: 1, max_chain: 3, streamed: false, restart: true, prefill: 0, retarget: Some((1, 6)), deep_reorgs: false },
-            C13Cfg { oracles: 1, max_chain: 3, streamed: false, restart: true, prefill: 0, retarget: Some((2, 6)), deep_reorgs: false },
-            C13Cfg { oracles: 1, max_chain: 2, streamed: false, restart: false, prefill: 0, retarget: Some((0, 0)), deep_reorgs: false },
-            C13Cfg { oracles: 1, max_chain: 2, streamed: false, restart: false, prefill: 0, retarget: Some((0, 1)), deep_reorgs: false },
-            C13Cfg { oracles: 1, max_chain: 2, streamed: false, restart: false, prefill: 0, retarget: Some((1, 2)), deep_reorgs: false },
-            C13Cfg { oracles: 1, max_chain: 2, streamed: false, restart: false, prefill: 0, retarget: Some((0, 3)), deep_reorgs: false },
-            C13Cfg { oracles: 2, max_chain: 3, streamed: false, restart: false, prefill: 0, retarget: None, deep_reorgs: true },
-            C13Cfg { oracles: 1, max_chain: 2, streamed: true, restart: false, prefill: 0, retarget: None, deep_reorgs: true },
+            C13Cfg { oracles: 0, max_chain: 3, streamed: true, restart: false, prefill: 0, retarget: None, deep_reorgs: false, round_tip: false },
+            C13Cfg { oracles: 1, max_chain: 4, streamed: true, restart: true, prefill: 0, retarget: None, deep_reorgs: false, round_tip: false },
+            C13Cfg { oracles: 2, max_chain: 3, streamed: false, restart: false, prefill: 0, retarget: None, deep_reorgs: false, round_tip: false },
+            C13Cfg { oracles: 3, max_chain: 4, streamed: true, restart: true, prefill: 0, retarget: None, deep_reorgs: false, round_tip: false },
+            C13Cfg { oracles: 4, max_chain: 3, streamed: false, restart: false, prefill: 0, retarget: None, deep_reorgs: false, round_tip: false },
+            C13Cfg { oracles: 2, max_chain: 2, streamed: true, restart: true, prefill: 101, retarget: None, deep_reorgs: false, round_tip: false },
+            C13Cfg { oracles: 1, max_chain: 3, streamed: false, restart: true, prefill: 0, retarget: Some((0, 6)), deep_reorgs: false, round_tip: false },
+            C13Cfg { oracles: 1, max_chain: 3, streamed: false, restart: true, prefill: 0, retarget: Some((1, 6)), deep_reorgs: false, round_tip: false },
+            C13Cfg { oracles: 1, max_chain: 3, streamed: false, restart: true, prefill: 0, retarget: Some((2, 6)), deep_reorgs: false, round_tip: false },
+            C13Cfg { oracles: 1, max_chain: 2, streamed: false, restart: false, prefill: 0, retarget: Some((0, 0)), deep_reorgs: false, round_tip: false },
+            C13Cfg { oracles: 1, max_chain: 2, streamed: false, restart: false, prefill: 0, retarget: Some((0, 1)), deep_reorgs: false, round_tip: false },
+            C13Cfg { oracles: 1, max_chain: 2, streamed: false, restart: false, prefill: 0, retarget: Some((1, 2)), deep_reorgs: false, round_tip: false },
+            C13Cfg { oracles: 1, max_chain: 2, streamed: false, restart: false, prefill: 0, retarget: Some((0, 3)), deep_reorgs: false, round_tip: false },
+            C13Cfg { oracles: 1, max_chain: 3, streamed: false, restart: true, prefill: 0, retarget: Some((2, 1)), deep_reorgs: false, round_tip: true },
+            C13Cfg { oracles: 1, max_chain: 2, streamed: false, restart: false, prefill: 0, retarget: Some((0, 1)), deep_reorgs: false, round_tip: true },
+            C13Cfg { oracles: 2, max_chain: 3, streamed: false, restart: false, prefill: 0, retarget: None, deep_reorgs: true, round_tip: false },
+            C13Cfg { oracles: 1, max_chain: 2, streamed: true, restart: false, prefill: 0, retarget: None, deep_reorgs: true, round_tip: false },
         ],
     }
 }
